@@ -425,8 +425,10 @@ spif_socket_accept(spif_socket_t self)
 
     ASSERT_RVAL(!SPIF_SOCKET_ISNULL(self), (spif_socket_t) NULL);
 
-    addr = SPIF_ALLOC(sockaddr);
-    len = SPIF_SIZEOF_TYPE(sockaddr);
+    /* The peer address may be a UNIX path; a bare struct sockaddr is too small for that. */
+    len = MAX(SPIF_SIZEOF_TYPE(unixsockaddr), SPIF_SIZEOF_TYPE(ipsockaddr));
+    addr = (spif_sockaddr_t) MALLOC(len);
+    memset(addr, 0, len);
     do {
         newfd = accept(self->fd, addr, &len);
     } while ((newfd < 0) && ((errno == EAGAIN) || (errno == EWOULDBLOCK)));
